@@ -30,16 +30,22 @@ PID = "C11"
 TIERS = {
     "quick": dict(
         vector=[dict(MaxDepth=4, PointIdx={1, 5}, Octants={1, 4, 6}, PartnerIdx=2, Scales={2, 4}),
-                dict(MaxDepth=3, PointIdx={13}, Octants={2, 3}, PartnerIdx=14, Scales={5, 6})],
-        field=[dict(MaxDepth=4, PointIdx={1, 5}, Octants={1, 4, 6}, PartnerIdx=2, Scales=set())],
+                # vectors with fewer than three components (Cartesian, cylindrical, spherical-on-the-axis)
+                dict(MaxDepth=3, PointIdx={13, 15, 16}, Octants={2, 3, 5}, PartnerIdx=2, Scales={5, 6})],
+        field=[dict(MaxDepth=4, PointIdx={1, 5}, Octants={1, 4, 6}, PartnerIdx=2, Scales=set()),
+               # azimuth-dependent fields at points of all octants (x < 0 included)
+               dict(MaxDepth=3, PointIdx={8}, Octants={1, 2, 3, 4, 5, 6, 7, 8}, PartnerIdx=2, Scales=set(), MaxDegree=0,
+                    AngleFields=True)],
         symbolic=True),
     "thorough": dict(
         vector=[dict(MaxDepth=6, PointIdx={1}, Octants={1, 6}, PartnerIdx=4, Scales={2}),
                 dict(MaxDepth=5, PointIdx={1, 5}, Octants={1, 4, 6, 7}, PartnerIdx=4, Scales={1, 2, 4}),
                 dict(MaxDepth=4, PointIdx={1, 2, 3, 4, 5, 6, 7, 8, 9, 10, 11, 12}, Octants={2, 3, 5, 8}, PartnerIdx=1, Scales={3, 7}),
-                dict(MaxDepth=4, PointIdx={13, 14}, Octants={1, 2, 3, 4}, PartnerIdx=13, Scales={2})],
+                dict(MaxDepth=4, PointIdx={13, 14, 15, 16}, Octants={1, 2, 3, 4, 5}, PartnerIdx=2, Scales={2, 5})],
         field=[dict(MaxDepth=5, PointIdx={1, 5}, Octants={1, 4, 6, 7}, PartnerIdx=2, Scales=set()),
-               dict(MaxDepth=3, PointIdx={2, 3, 6, 8, 12, 13}, Octants={2, 3, 5, 8}, PartnerIdx=2, Scales=set())],
+               dict(MaxDepth=3, PointIdx={2, 3, 6, 8, 12, 13}, Octants={2, 3, 5, 8}, PartnerIdx=2, Scales=set()),
+               dict(MaxDepth=4, PointIdx={8, 17}, Octants={1, 2, 3, 4, 5, 6, 7, 8}, PartnerIdx=2, Scales=set(), MaxDegree=0,
+                    AngleFields=True)],
         symbolic=True),
 }
 MAX_DEGREE = 2
@@ -70,6 +76,9 @@ def _type_name(cs):
 # the harness' own textbook formulas.  Library convention (core): cylindrical (r, theta = azimuth, z),
 # spherical (r, theta = azimuth, phi = polar angle from +z).
 
+AXIS_AZIMUTH = (4, 3)      # the (arbitrary) azimuth atan2(4, 3) written into a spherical vector that lies on the z axis
+
+
 def coords_of(cart, kind):
     """Coordinates of the Cartesian integer point in the given kind of system (library component order)."""
     import sympy as sp
@@ -79,6 +88,8 @@ def coords_of(cart, kind):
     if kind == "cyl":
         return [sp.sqrt(x**2 + y**2), sp.atan2(y, x), z]
     r = sp.sqrt(x**2 + y**2 + z**2)
+    if x == 0 and y == 0:       # on the axis: any azimuth describes the vector; polar angle 0 or pi
+        return [r, sp.atan2(*AXIS_AZIMUTH), sp.Integer(0) if z > 0 else sp.pi]
     return [r, sp.atan2(y, x), sp.acos(z / r)]
 
 
@@ -96,36 +107,51 @@ def project(kind, comps):
 
 
 def make_vector(cart, kind):
+    """The vector in the given kind of system; trailing zero components are LEFT OUT (a missing component is a
+    zero component): [x, y], [x], cylindrical [r, theta], [r], spherical [r, theta] (polar angle 0: along +z)."""
     from symplyphysics import Vector
     comps = coords_of(cart, kind)
-    if kind == "cart" and cart[2] == 0:
-        comps = comps[:2]          # a two-component vector in the plane z = 0
+    while len(comps) > 1 and comps[-1] == 0:
+        comps = comps[:-1]
     return Vector(comps, _init()[kind])
 
 
-def make_field(expo, kind, ctor):
-    """The Cartesian monomial x^i y^j z^k written in the coordinates of the given system, by hand."""
+HALF_SIN, HALF_COS = [-1, 0, 0], [-2, 0, 0]       # Rebase!HalfSinField, Rebase!HalfCosField
+
+
+def field_expression(expo, kind, q1, q2, q3):
+    """The field written by hand in the coordinates (q1, q2, q3) of the given kind of system: the Cartesian monomial
+    x^i y^j z^k, or rho sin(azimuth/2) + z, or rho cos(azimuth/2) - z."""
     import sympy as sp
-    from symplyphysics.core.fields.scalar_field import ScalarField
+    if kind == "cart":
+        x, y, z = q1, q2, q3
+        rho, theta = sp.sqrt(x**2 + y**2), sp.atan2(y, x)
+    elif kind == "cyl":
+        rho, theta, z = q1, q2, q3
+        x, y = rho * sp.cos(theta), rho * sp.sin(theta)
+    else:
+        rho, theta, z = q1 * sp.sin(q3), q2, q1 * sp.cos(q3)
+        x, y = rho * sp.cos(theta), rho * sp.sin(theta)
+    if list(expo) == HALF_SIN:
+        return rho * sp.sin(theta / 2) + z
+    if list(expo) == HALF_COS:
+        return rho * sp.cos(theta / 2) - z
     i, j, k = expo
+    return x**i * y**j * z**k
+
+
+def make_field(expo, kind, ctor):
+    from symplyphysics.core.fields.scalar_field import ScalarField
     cs = _init()[kind]
     if ctor == "lambda":
         if kind == "cart":
-            fn = lambda p: p.x**i * p.y**j * p.z**k   # noqa: E731
+            fn = lambda p: field_expression(expo, kind, p.x, p.y, p.z)   # noqa: E731
         elif kind == "cyl":
-            fn = lambda p: (p.r * sp.cos(p.theta))**i * (p.r * sp.sin(p.theta))**j * p.z**k   # noqa: E731
+            fn = lambda p: field_expression(expo, kind, p.r, p.theta, p.z)   # noqa: E731
         else:
-            fn = lambda p: ((p.r * sp.sin(p.phi) * sp.cos(p.theta))**i * (p.r * sp.sin(p.phi) * sp.sin(p.theta))**j   # noqa: E731
-                            * (p.r * sp.cos(p.phi))**k)
+            fn = lambda p: field_expression(expo, kind, p.r, p.theta, p.phi)   # noqa: E731
         return ScalarField(fn, cs)
-    q1, q2, q3 = cs.coord_system.base_scalars()
-    if kind == "cart":
-        e = q1**i * q2**j * q3**k
-    elif kind == "cyl":
-        e = (q1 * sp.cos(q2))**i * (q1 * sp.sin(q2))**j * q3**k
-    else:
-        e = (q1 * sp.sin(q3) * sp.cos(q2))**i * (q1 * sp.sin(q3) * sp.sin(q2))**j * (q1 * sp.cos(q3))**k
-    return ScalarField.from_expression(e, cs)
+    return ScalarField.from_expression(field_expression(expo, kind, *cs.coord_system.base_scalars()), cs)
 
 
 def make_point(cart, kind):
@@ -147,12 +173,13 @@ class _Ctx:
         self.t0 = time.time()
         self.observed = {}      # prefix (tuple of (act, arg)) -> recorded projection of the real state
         self.records = []       # one record per executed real step, for spec/RebaseTrace.tla
+        self.rewrite = True     # try expensive exact rewriting before falling back to the numeric comparison
 
 
-def _cmp(ctx, where, clause, expr, want, label):
+def _cmp(ctx, where, clause, expr, want, label, rewrite=True):
     """Compare a real value with the model's; returns the real value as [n, d] when it is known exactly."""
     want = Fraction(*want) if isinstance(want, (list, tuple)) else Fraction(want)
-    verdict, value = exact_value(expr, want)
+    verdict, value = exact_value(expr, want, rewrite)
     if verdict == "different":
         ctx.problems.append((where, clause, f"{label}: real value {expr}, model {want}"))
     elif verdict == "numeric-equal":
@@ -219,7 +246,9 @@ def observe_field(ctx, where, field, cart, repr_, obs):
             if out[0] == "raised":
                 ctx.problems.append((where, f"apply {pk} point", f"{kind} field refused its own kind of point: {out[1]}"))
             else:
-                rec["value"] = _cmp(ctx, where, "field value", out[1], obs["value"], f"{kind} field at the physical point {cart}")
+                # half-angle values are rational but SymPy does not reduce them: decided numerically (40 digits)
+                rec["value"] = _cmp(ctx, where, "field value", out[1], obs["value"], f"{kind} field at the physical point {cart}",
+                                    rewrite=ctx.rewrite)
     return rec
 
 
@@ -229,6 +258,7 @@ def replay_group(group):
     ctx = _Ctx()
     obj, start = group["obj"], group["start"]
     cart_a, b = group["a"], group["b"]
+    ctx.rewrite = not (obj == "field" and list(b) in (HALF_SIN, HALF_COS))
     try:
         with time_limit(STEP_SECONDS):
             if obj == "vector":
@@ -356,7 +386,8 @@ def _group_cases(cases, ctors):
     groups = {}
     for idx, case in enumerate(cases):
         a, b = case["start"]["a"], case["start"]["b"]
-        if not is_pythagorean(a) or (case["obj"] == "vector" and not is_pythagorean(b)):
+        on_axis = case["obj"] == "vector" and a[0] == 0 and a[1] == 0 and a[2] != 0
+        if not (is_pythagorean(a) or on_axis) or (case["obj"] == "vector" and not is_pythagorean(b)):
             raise RuntimeError(f"the model emitted a non-Pythagorean point {a} {b}")
         for ctor in ctors if case["obj"] == "field" else ("-",):
             key = (case["obj"], case["start"]["repr"], tuple(a), tuple(b), ctor)
@@ -370,7 +401,8 @@ def _group_cases(cases, ctors):
 
 def _consts(c, obj):
     return {"MaxDepth": c["MaxDepth"], "Object": obj, "PointIdx": set(c["PointIdx"]), "Octants": set(c["Octants"]),
-            "PartnerIdx": c["PartnerIdx"], "MaxDegree": MAX_DEGREE, "Scales": set(c["Scales"])}
+            "PartnerIdx": c["PartnerIdx"], "MaxDegree": c.get("MaxDegree", MAX_DEGREE), "Scales": set(c["Scales"]),
+            "AngleFields": bool(c.get("AngleFields", False))}
 
 
 def run_tlc_configs(run, sc, tier):
